@@ -900,7 +900,7 @@ macro_rules! ext_mod {
                             "g.serraw" => {
                                 let _o = annot_order(ext, i);
                                 let bytes = ser(&ext.graphs[i], t[2]).unwrap();
-                                String::from_utf8_lossy(&bytes).replace('\n', "|").replace(' ', "_")
+                                if t[2] == "json" { String::from_utf8_lossy(&bytes).replace('\n', "|").replace(' ', "_") } else { crate::exec_cont::hex(&bytes) }
                             }
                             "g.roundtrip" => {
                                 let o = annot_order(ext, i);
@@ -962,8 +962,8 @@ macro_rules! ext_mod {
                                 }
                             }
                             "g.deraw" => {
-                                // g.deraw <slot> <json|cbor> <hex bytes>: the bytes go to the real deserialiser unchanged.
-                                // json: compared exactly with the byte-level model (Model/Json.lean); cbor: robustness only.
+                                // g.deraw <slot> <json|cbor> <hex bytes>: the bytes go to the real deserialiser unchanged;
+                                // the answer is compared exactly with the byte-level models (Model/Json.lean, Model/Cbor.lean)
                                 let bytes = crate::exec_cont::unhex(t.get(3).copied().unwrap_or(""));
                                 let r = de(&bytes, t[2]);
                                 let c13 = !ctx.quiet && ctx.oracles.iter().any(|o| o == "c13");
@@ -976,16 +976,14 @@ macro_rules! ext_mod {
                                         .or_else(|| serde_cbor::from_slice::<(Vec<(usize, i64)>,)>(&bytes).ok().map(|x| (x.0, vec![])))
                                 };
                                 match r {
-                                    Err(_) => if t[2] == "json" { "err".into() } else { "any".into() },
+                                    Err(_) => "err".into(),
                                     Ok(g2) => {
                                         if c13 {
                                             if let Err(m) = ok_graph_invariants(&g2, &doc) {
                                                 ctx.fail(case, li, "c13", format!("deserialising the {} bytes {} returned Ok but {m}", t[2], t.get(3).copied().unwrap_or("")));
                                             }
                                         }
-                                        if t[2] != "json" {
-                                            "any".into()
-                                        } else {
+                                        {
                                             let mut order: Vec<usize> = vec![];
                                             match &doc {
                                                 Some((dn, _)) => for (k, _) in dn { if !order.contains(k) { order.push(*k); } },
